@@ -6,23 +6,23 @@
    already-done) input states. *)
 From Coq Require Import List NArith.
 Import ListNotations.
-From TV Require Import C36.Model C36.Proofs C36.ProofsMulti C36.ProofsChain C36.ProofsWait C36.ProofsMain.
+From TV Require Import Lib.Obs C36.Model C36.Run C36.Proofs C36.ProofsMulti C36.ProofsChain C36.ProofsWait C36.ProofsMain C36.ProofsCheck.
 
 (* ---------------- multi ---------------- *)
 (* Safety: whenever the combined future is done, it is either cancelled by its
    consumer, or every child is done and it holds the gathered outcome:
    results in input order, or the exception of the first failed child in input
    order (a cancelled child counts as CancelledError). It never resolves early. *)
-Theorem C36_multi_outcome : forall ins children es o,
+Theorem C36_multi_outcome : forall qs ins children es o,
   Forall (fun c => c < length ins) children ->
-  m_out (m_run (m_create ins children) es) = Some o ->
+  m_out (m_run (m_create qs ins children) es) = Some o ->
   (o = Cancelled /\ In CancelOut es) \/ expected (final_ins ins es) children = Some o.
 Proof. intros; eapply multi_safe; eauto. Qed.
 Print Assumptions C36_multi_outcome.
 
-Theorem C36_multi_never_early : forall ins children es o,
+Theorem C36_multi_never_early : forall qs ins children es o,
   Forall (fun c => c < length ins) children ->
-  m_out (m_run (m_create ins children) es) = Some o -> o <> Cancelled ->
+  m_out (m_run (m_create qs ins children) es) = Some o -> o <> Cancelled ->
   forall c, In c children -> isdone (final_ins ins es) c = true.
 Proof. intros; eapply multi_not_early; eauto. Qed.
 Print Assumptions C36_multi_never_early.
@@ -30,24 +30,24 @@ Print Assumptions C36_multi_never_early.
 (* Liveness: once every child is done and the loop has run the queued callbacks,
    the combined future is done -- and running the (finitely many) queued
    callbacks is always enough. *)
-Theorem C36_multi_settles_when_quiescent : forall ins children es,
+Theorem C36_multi_settles_when_quiescent : forall qs ins children es,
   Forall (fun c => c < length ins) children ->
-  let w := m_run (m_create ins children) es in
+  let w := m_run (m_create qs ins children) es in
   m_ready w = [] -> (forall c, In c children -> isdone (final_ins ins es) c = true) -> m_out w <> None.
-Proof. intros ins ch es B w Q AD. apply multi_live; auto. apply expected_iff_all_done; auto. Qed.
+Proof. intros qs ins ch es B w Q AD. apply multi_live; auto. apply expected_iff_all_done; auto. Qed.
 Print Assumptions C36_multi_settles_when_quiescent.
 
-Theorem C36_multi_settles_after_steps : forall ins children es,
+Theorem C36_multi_settles_after_steps : forall qs ins children es,
   Forall (fun c => c < length ins) children ->
-  let w := m_run (m_create ins children) es in
+  let w := m_run (m_create qs ins children) es in
   (forall c, In c children -> isdone (final_ins ins es) c = true) ->
   m_out (m_run w (repeat Step (length (m_ready w)))) <> None.
-Proof. intros ins ch es B w AD. apply multi_settles; auto. apply expected_iff_all_done; auto. Qed.
+Proof. intros qs ins ch es B w AD. apply multi_settles; auto. apply expected_iff_all_done; auto. Qed.
 Print Assumptions C36_multi_settles_after_steps.
 
-Theorem C36_multi_exact_without_consumer_cancel : forall ins children es,
+Theorem C36_multi_exact_without_consumer_cancel : forall qs ins children es,
   Forall (fun c => c < length ins) children ->
-  let w := m_run (m_create ins children) es in
+  let w := m_run (m_create qs ins children) es in
   ~ In CancelOut es -> m_ready w = [] ->
   (forall c, In c children -> isdone (final_ins ins es) c = true) ->
   m_out w = expected (final_ins ins es) children /\ m_out w <> None.
@@ -55,10 +55,33 @@ Proof. exact multi_quiescent_exact. Qed.
 Print Assumptions C36_multi_exact_without_consumer_cancel.
 
 (* no exception ever escapes the done-callback (the pre-fix CancelledError escape) *)
-Theorem C36_multi_callback_never_raises : forall ins children es,
-  Forall (fun c => c < length ins) children -> m_err (m_run (m_create ins children) es) = 0.
+Theorem C36_multi_callback_never_raises : forall qs ins children es,
+  Forall (fun c => c < length ins) children -> m_err (m_run (m_create qs ins children) es) = 0.
 Proof. intros; apply multi_noerr; auto. Qed.
 Print Assumptions C36_multi_callback_never_raises.
+
+(* logging ("Multiple exceptions in yield list") and quiet_exceptions: nothing is logged
+   while the output is pending; once it is settled (other than by its consumer) exactly
+   the failed children after the first failed one whose exception is not quiet were logged *)
+Theorem C36_multi_logs_exactly_later_loud_failures : forall qs ins children es,
+  Forall (fun c => c < length ins) children ->
+  let w := m_run (m_create qs ins children) es in
+  (m_out w = None -> m_log w = 0) /\
+  (forall o, m_out w = Some o -> o <> Cancelled ->
+     exists os, child_outs (final_ins ins es) children = Some os /\ m_log w = extra_logged qs os).
+Proof. intros. apply multi_log; auto. Qed.
+Print Assumptions C36_multi_logs_exactly_later_loud_failures.
+
+(* the dict form (keys = list(children.keys()), result = dict(zip(keys, results))): every key
+   is paired with the result of its own child *)
+Theorem C36_multi_dict_result : forall ins keys children l,
+  length keys = length children ->
+  expected ins children = Some (Res l) ->
+  dict_view keys (Res l) = Res (combine keys l) /\ map fst (combine keys l) = keys /\
+  forall i k c, nth_error keys i = Some k -> nth_error children i = Some c ->
+    exists v, nth_error (combine keys l) i = Some (k, v) /\ nth_error ins c = Some (Some (Res v)).
+Proof. exact multi_dict_result. Qed.
+Print Assumptions C36_multi_dict_result.
 
 (* the meaning of the gathered outcome *)
 Theorem C36_gather_spec : forall l e r,
@@ -99,8 +122,8 @@ Print Assumptions C36_chain_settles_after_steps.
    holds exactly that verdict (the input's outcome, cancellation included, or
    TimeoutError) unless its consumer cancelled it; no callback raises; once the
    race is decided and the queue has run it is done. *)
-Theorem C36_timeout_correct : forall a0 es,
-  let w := t_run (t_create a0) es in
+Theorem C36_timeout_correct : forall qs a0 es,
+  let w := t_run (t_create qs a0) es in
   let v := race a0 es in
   t_err w = 0 /\ t_a w = src_final a0 es /\
   (forall o, t_r w = Some o -> Some o = v_outcome v \/ (o = Cancelled /\ In CancelOut es)) /\
@@ -116,18 +139,27 @@ Theorem C36_timeout_verdict_is_first_decisive_event : forall o e es,
 Proof. intros. split; [apply race_done|split; [reflexivity|apply race_cons]]. Qed.
 Print Assumptions C36_timeout_verdict_is_first_decisive_event.
 
-Theorem C36_timeout_exact_without_consumer_cancel : forall a0 es,
-  let w := t_run (t_create a0) es in
+Theorem C36_timeout_exact_without_consumer_cancel : forall qs a0 es,
+  let w := t_run (t_create qs a0) es in
   ~ In CancelOut es -> t_ready w = [] -> race a0 es <> Undecided ->
   t_r w = v_outcome (race a0 es).
 Proof. exact timeout_quiescent_exact. Qed.
 Print Assumptions C36_timeout_exact_without_consumer_cancel.
 
-Theorem C36_timeout_settles_after_steps : forall a0 es,
-  let w := t_run (t_create a0) es in
+Theorem C36_timeout_settles_after_steps : forall qs a0 es,
+  let w := t_run (t_create qs a0) es in
   race a0 es <> Undecided -> t_r (t_run w (repeat Step (length (t_ready w)))) <> None.
 Proof. exact timeout_settles. Qed.
 Print Assumptions C36_timeout_settles_after_steps.
+
+(* with_timeout logs ("Exception in Future ... after timeout") only when the input failed with
+   an exception that is neither CancelledError nor quiet *)
+Theorem C36_timeout_logs_only_loud_failures : forall qs a0 es,
+  let w := t_run (t_create qs a0) es in
+  t_log w = 0 \/
+  exists e, src_final a0 es = Some (Exn e) /\ e <> ECancelled /\ is_quiet qs e = false.
+Proof. exact timeout_log. Qed.
+Print Assumptions C36_timeout_logs_only_loud_failures.
 
 (* ---------------- WaitIterator (any arguments, duplicates included) ---------------- *)
 (* [wait_keys args] = the distinct watched futures (keys of the _unfinished dict).
@@ -165,6 +197,16 @@ Theorem C36_wait_yields_everything_exactly_once : forall ins args es,
 Proof. exact wait_live. Qed.
 Print Assumptions C36_wait_yields_everything_exactly_once.
 
+(* every yield was delivered to a next() future that now holds the outcome of the yielded
+   input: nothing is ever handed to an abandoned / cancelled next() future (for ALL schedules,
+   including consumers that cancel the future they got from next() at any time) *)
+Theorem C36_wait_next_future_gets_the_yielded_outcome : forall ins args es,
+  let w := w_run (w_create ins args) es in
+  forall y, In y (w_yield w) ->
+  exists o, nth_error (w_nexts w) (snd y) = Some (Some o) /\ nth_error (final_ins ins es) (yf y) = Some (Some o).
+Proof. exact wait_delivered. Qed.
+Print Assumptions C36_wait_next_future_gets_the_yielded_outcome.
+
 Theorem C36_wait_keys_are_the_distinct_arguments : forall args f,
   NoDup (wait_keys args) /\ (In f (wait_keys args) <-> In f (map snd args)).
 Proof. intros. split; [apply wait_keys_NoDup|apply wait_keys_In]. Qed.
@@ -178,3 +220,8 @@ Theorem C36_wait_duplicate_witness :
   w_isdone w = true /\ w_nexterr w = 0 /\ w_err w = 0 /\ w_ready w = [] /\ w_fin w = [].
 Proof. exact wait_duplicate_witness. Qed.
 Print Assumptions C36_wait_duplicate_witness.
+
+(* ---------------- the checker applied to the implementation accepts the model ---------------- *)
+Theorem C36_check_accepts_model : forall c, check_case c (run_case c) = true.
+Proof. exact check_accepts_model. Qed.
+Print Assumptions C36_check_accepts_model.
